@@ -321,3 +321,280 @@ Proof.
   intros Hc. unfold split_ws. rewrite <- (append_empty_r a) at 2. apply split_ws_aux_congr. intros cur.
   cbn [split_ws_aux]. rewrite Hc. destruct (str_nonempty cur); reflexivity.
 Qed.
+
+(** * IPv4 text: rendering an address and reading it back *)
+Lemma append_assoc_s (a b c : string) : ((a ++ b) ++ c)%string = (a ++ (b ++ c))%string.
+Proof. induction a as [|ch a IH]; cbn; [reflexivity|now rewrite IH]. Qed.
+
+Fixpoint no_char (ch : ascii) (s : string) : bool :=
+  match s with EmptyString => true | String c s' => negb (Ascii.eqb c ch) && no_char ch s' end.
+
+Lemma split_char_aux_nodot ch s : no_char ch s = true ->
+  forall cur rest, split_char_aux ch (s ++ String ch rest) cur = (cur ++ s)%string :: split_char_aux ch rest "".
+Proof.
+  induction s as [|c s IH]; intros H cur rest; cbn [append split_char_aux].
+  - rewrite Ascii.eqb_refl. now rewrite append_empty_r.
+  - cbn [no_char] in H. apply andb_prop in H as [H1 H2]. apply negb_true_iff in H1. rewrite H1.
+    rewrite (IH H2). f_equal. rewrite append_assoc_s. reflexivity.
+Qed.
+
+Lemma split_char_aux_last ch s : no_char ch s = true ->
+  forall cur, split_char_aux ch s cur = [(cur ++ s)%string].
+Proof.
+  induction s as [|c s IH]; intros H cur; cbn [split_char_aux].
+  - now rewrite append_empty_r.
+  - cbn [no_char] in H. apply andb_prop in H as [H1 H2]. apply negb_true_iff in H1. rewrite H1.
+    rewrite (IH H2). f_equal. rewrite append_assoc_s. reflexivity.
+Qed.
+
+(** finite facts about the 256 octet spellings, by computation *)
+Definition octet_ok (m : N) : bool :=
+  no_char "." (dec m) && match parse_octet (dec m) with Some k => N.eqb k m | None => false end.
+
+Lemma octets_ok : forallb octet_ok (seqN 0 256) = true.
+Proof. vm_compute. reflexivity. Qed.
+
+Lemma octet_ok_lt m : m < 256 -> octet_ok m = true.
+Proof.
+  intros H. assert (F := octets_ok). rewrite forallb_forall in F. apply F.
+  apply memN_In. clear F.
+  (* membership in a 256-element literal range: by computation on the bounded value *)
+  assert (E : m = N.of_nat (N.to_nat m)) by (now rewrite N2Nat.id).
+  assert (Hn : (N.to_nat m < 256)%nat) by lia.
+  rewrite E. generalize (N.to_nat m) Hn. clear.
+  intros n Hn. do 256 (destruct n as [|n]; [vm_compute; reflexivity|]). lia.
+Qed.
+
+Theorem parse_render_ip n : n < 2 ^ 32 -> parse_ip (render_ip n) = Some n.
+Proof.
+  intros Hn. unfold parse_ip, render_ip.
+  set (a := n / 16777216 mod 256). set (b := n / 65536 mod 256). set (c := n / 256 mod 256). set (d := n mod 256).
+  assert (Ha : a < 256) by (unfold a; apply N.mod_lt; lia).
+  assert (Hb : b < 256) by (unfold b; apply N.mod_lt; lia).
+  assert (Hc : c < 256) by (unfold c; apply N.mod_lt; lia).
+  assert (Hd : d < 256) by (unfold d; apply N.mod_lt; lia).
+  pose proof (octet_ok_lt a Ha) as Oa. pose proof (octet_ok_lt b Hb) as Ob.
+  pose proof (octet_ok_lt c Hc) as Oc. pose proof (octet_ok_lt d Hd) as Od.
+  unfold octet_ok in Oa, Ob, Oc, Od.
+  apply andb_prop in Oa as [Na Pa]. apply andb_prop in Ob as [Nb Pb].
+  apply andb_prop in Oc as [Nc Pc]. apply andb_prop in Od as [Nd Pd].
+  unfold split_char.
+  change (dec a ++ "." ++ dec b ++ "." ++ dec c ++ "." ++ dec d)%string
+    with (dec a ++ String "." (dec b ++ String "." (dec c ++ String "." (dec d))))%string.
+  rewrite (split_char_aux_nodot "." (dec a) Na), (split_char_aux_nodot "." (dec b) Nb),
+          (split_char_aux_nodot "." (dec c) Nc), (split_char_aux_last "." (dec d) Nd).
+  cbn [append].
+  destruct (parse_octet (dec a)) as [ka|]; [|discriminate]. apply N.eqb_eq in Pa. subst ka.
+  destruct (parse_octet (dec b)) as [kb|]; [|discriminate]. apply N.eqb_eq in Pb. subst kb.
+  destruct (parse_octet (dec c)) as [kc|]; [|discriminate]. apply N.eqb_eq in Pc. subst kc.
+  destruct (parse_octet (dec d)) as [kd|]; [|discriminate]. apply N.eqb_eq in Pd. subst kd.
+  f_equal. unfold a, b, c, d. clear -Hn.
+  change (2 ^ 32) with 4294967296 in Hn.
+  pose proof (N.div_mod n 16777216 ltac:(lia)). pose proof (N.mod_lt n 16777216 ltac:(lia)).
+  pose proof (N.div_mod (n mod 16777216) 65536 ltac:(lia)). pose proof (N.mod_lt (n mod 16777216) 65536 ltac:(lia)).
+  pose proof (N.div_mod (n mod 65536) 256 ltac:(lia)). pose proof (N.mod_lt (n mod 65536) 256 ltac:(lia)).
+  assert (E1 : n / 16777216 mod 256 = n / 16777216).
+  { apply N.mod_small. apply N.div_lt_upper_bound; lia. }
+  assert (E2 : n / 65536 mod 256 = (n mod 16777216) / 65536).
+  { replace 16777216 with (65536 * 256) by reflexivity. rewrite N.mod_mul_r by lia.
+    rewrite N.mul_comm, N.div_add by lia. rewrite (N.div_small (n mod 65536)) by (apply N.mod_lt; lia). now rewrite N.add_0_l. }
+  assert (E3 : n / 256 mod 256 = (n mod 65536) / 256).
+  { replace 65536 with (256 * 256) by reflexivity. rewrite N.mod_mul_r by lia.
+    rewrite N.mul_comm, N.div_add by lia. rewrite (N.div_small (n mod 256)) by (apply N.mod_lt; lia). now rewrite N.add_0_l. }
+  assert (E4 : n mod 16777216 mod 65536 = n mod 65536).
+  { replace 16777216 with (65536 * 256) by reflexivity. rewrite N.mod_mul_r by lia.
+    rewrite N.mul_comm, N.mod_add by lia. apply N.mod_mod. lia. }
+  assert (E5 : n mod 65536 mod 256 = n mod 256).
+  { replace 65536 with (256 * 256) by reflexivity. rewrite N.mod_mul_r by lia.
+    rewrite N.mul_comm, N.mod_add by lia. apply N.mod_mod. lia. }
+  rewrite E1, E2, E3. rewrite E4 in *. rewrite E5 in *. lia.
+Qed.
+
+(** * address text: what the renderer writes is read back as the same spelling *)
+Lemma octet_digits_ok : forallb (fun m => all_chars is_digit (dec m) && str_nonempty (dec m)) (seqN 0 256) = true.
+Proof. vm_compute. reflexivity. Qed.
+
+Lemma octet_digits m : m < 256 -> all_chars is_digit (dec m) = true /\ dec m <> ""%string.
+Proof.
+  intros H. assert (F := octet_digits_ok). rewrite forallb_forall in F.
+  assert (Hin : In m (seqN 0 256)).
+  { apply memN_In. assert (E : m = N.of_nat (N.to_nat m)) by (now rewrite N2Nat.id).
+    assert (Hn : (N.to_nat m < 256)%nat) by lia. rewrite E. generalize (N.to_nat m) Hn. clear.
+    intros n Hn. do 256 (destruct n as [|n]; [vm_compute; reflexivity|]). lia. }
+  specialize (F m Hin). apply andb_prop in F as [F1 F2]. split; [exact F1|].
+  destruct (dec m); [discriminate|discriminate].
+Qed.
+
+(** strings made of digits and dots (what [render_ip] writes) *)
+Definition dd (c : ascii) : bool := is_digit c || Ascii.eqb c ".".
+
+Lemma all_chars_app f a b : all_chars f (a ++ b) = all_chars f a && all_chars f b.
+Proof. induction a as [|c a IH]; cbn; [reflexivity|]. now rewrite IH, andb_assoc. Qed.
+
+Lemma all_chars_weaken (f g : ascii -> bool) s :
+  (forall c, f c = true -> g c = true) -> all_chars f s = true -> all_chars g s = true.
+Proof.
+  intros H. induction s as [|c s IH]; cbn; auto. intros E. apply andb_prop in E as [E1 E2].
+  rewrite (H c E1). cbn. auto.
+Qed.
+
+Lemma render_ip_dd n : all_chars dd (render_ip n) = true.
+Proof.
+  unfold render_ip.
+  assert (D : forall m, m < 256 -> all_chars dd (dec m) = true).
+  { intros m Hm. apply (all_chars_weaken is_digit); [|apply octet_digits; exact Hm].
+    intros c Hc. unfold dd. now rewrite Hc. }
+  rewrite !all_chars_app. cbn [all_chars dd]. rewrite !D by (apply N.mod_lt; lia). reflexivity.
+Qed.
+
+Lemma render_ip_first n : first_is_digit (render_ip n) = true.
+Proof.
+  unfold render_ip. destruct (octet_digits (n / 16777216 mod 256)) as [D N0]; [apply N.mod_lt; lia|].
+  destruct (dec (n / 16777216 mod 256)) as [|c r]; [congruence|]. cbn in *. now apply andb_prop in D as [D _].
+Qed.
+
+Lemma dd_no_char ch s : dd ch = false -> all_chars dd s = true -> str_contains_char ch s = false.
+Proof.
+  intros Hc. induction s as [|c s IH]; cbn; auto. intros E. apply andb_prop in E as [E1 E2].
+  rewrite (IH E2), orb_false_r. destruct (Ascii.eqb c ch) eqn:Q; auto. apply Ascii.eqb_eq in Q. congruence.
+Qed.
+
+Lemma contains_app ch a b : str_contains_char ch (a ++ b) = str_contains_char ch a || str_contains_char ch b.
+Proof. induction a as [|c a IH]; cbn; [reflexivity|]. now rewrite IH, orb_assoc. Qed.
+
+Lemma first_is_digit_app a b : first_is_digit a = true -> first_is_digit (a ++ b) = true.
+Proof. destruct a; cbn; [discriminate|auto]. Qed.
+
+Lemma dd_no_char_b ch s : dd ch = false -> all_chars dd s = true -> no_char ch s = true.
+Proof.
+  intros Hc. induction s as [|c s IH]; cbn; auto. intros E. apply andb_prop in E as [E1 E2].
+  rewrite (IH E2), andb_true_r. destruct (Ascii.eqb c ch) eqn:Q; auto. apply Ascii.eqb_eq in Q. congruence.
+Qed.
+
+(** prefix notation *)
+Theorem prefix_text_fixpoint pl x len : x < 2 ^ 32 -> (len <= 32)%nat ->
+  spelling_of_text pl (render_ip x ++ "/" ++ dec (N.of_nat len)) = Ok (SPrefix x len).
+Proof.
+  intros Hx Hl. unfold spelling_of_text.
+  assert (Hany : String.eqb (render_ip x ++ "/" ++ dec (N.of_nat len)) "any" = false).
+  { apply String.eqb_neq. intro C. pose proof (render_ip_first x) as F.
+    apply (first_is_digit_app _ ("/" ++ dec (N.of_nat len))) in F. rewrite C in F. discriminate. }
+  rewrite Hany, (first_is_digit_app _ _ (render_ip_first x)), contains_app. cbn [append str_contains_char].
+  rewrite Ascii.eqb_refl, orb_true_r. cbn [andb].
+  unfold parse_prefix_text, split_char.
+  change (render_ip x ++ String "/" (dec (N.of_nat len)))%string
+    with (render_ip x ++ String "/" (dec (N.of_nat len)))%string.
+  rewrite (split_char_aux_nodot "/" (render_ip x) (dd_no_char_b "/" _ eq_refl (render_ip_dd x))).
+  assert (ND : no_char "/" (dec (N.of_nat len)) = true).
+  { assert (F : forallb (fun k => no_char "/" (dec k)) (seqN 0 33) = true) by (vm_compute; reflexivity).
+    rewrite forallb_forall in F. apply F. apply memN_In.
+    do 33 (destruct len as [|len]; [vm_compute; reflexivity|]). lia. }
+  rewrite (split_char_aux_last "/" _ ND). cbn [append].
+  rewrite (parse_render_ip x Hx). unfold parse_masklen. rewrite undec_dec.
+  replace (N.of_nat len <=? 32) with true by (symmetry; apply N.leb_le; lia).
+  cbn. now rewrite Nat2N.id.
+Qed.
+
+Theorem any_text_fixpoint pl : spelling_of_text pl "any" = Ok SAny.
+Proof. reflexivity. Qed.
+
+Lemma take_digits_app D ch r : all_chars is_digit D = true -> is_digit ch = false ->
+  take_digits (D ++ String ch r) = (D, String ch r).
+Proof.
+  intros HD Hc. induction D as [|c D IH]; cbn [append take_digits].
+  - now rewrite Hc.
+  - cbn [all_chars] in HD. apply andb_prop in HD as [H1 H2]. rewrite H1, (IH H2). reflexivity.
+Qed.
+
+Lemma octets_prefix_render n : octets_prefix (render_ip n) = Some (render_ip n, ""%string).
+Proof.
+  unfold render_ip.
+  set (a := dec (n / 16777216 mod 256)). set (b := dec (n / 65536 mod 256)).
+  set (c := dec (n / 256 mod 256)). set (d := dec (n mod 256)).
+  destruct (octet_digits (n / 16777216 mod 256)) as [Da Na]; [apply N.mod_lt; lia|].
+  destruct (octet_digits (n / 65536 mod 256)) as [Db Nb]; [apply N.mod_lt; lia|].
+  destruct (octet_digits (n / 256 mod 256)) as [Dc Nc]; [apply N.mod_lt; lia|].
+  destruct (octet_digits (n mod 256)) as [Dd Nd]; [apply N.mod_lt; lia|].
+  fold a in Da, Na. fold b in Db, Nb. fold c in Dc, Nc. fold d in Dd, Nd.
+  unfold octets_prefix.
+  change (a ++ "." ++ b ++ "." ++ c ++ "." ++ d)%string
+    with (a ++ String "." (b ++ String "." (c ++ String "." d)))%string.
+  rewrite (take_digits_app a "." _ Da eq_refl). cbn [fst snd].
+  destruct a as [|a0 a']; [congruence|].
+  rewrite (take_digits_app b "." _ Db eq_refl). cbn [fst snd].
+  destruct b as [|b0 b']; [congruence|].
+  rewrite (take_digits_app c "." _ Dc eq_refl). cbn [fst snd].
+  destruct c as [|c0 c']; [congruence|].
+  rewrite (take_digits_all d Dd). cbn [fst snd].
+  destruct d as [|d0 d']; [congruence|]. reflexivity.
+Qed.
+
+Lemma octets_prefix_nondigit c s : is_digit c = false -> octets_prefix (String c s) = None.
+Proof. intros H. unfold octets_prefix. cbn [take_digits]. rewrite H. reflexivity. Qed.
+
+Theorem host_text_fixpoint pl x : x < 2 ^ 32 ->
+  spelling_of_text pl ("host " ++ render_ip x) = Ok (SHost x).
+Proof.
+  intros Hx. unfold spelling_of_text.
+  change (String.eqb ("host " ++ render_ip x) "any") with false.
+  change (first_is_digit ("host " ++ render_ip x)) with false. cbn [andb].
+  change (starts_with "host " ("host " ++ render_ip x)) with true. cbn [orb].
+  change ("host " ++ render_ip x)%string
+    with (String "h" (String "o" (String "s" (String "t" (String " " (render_ip x)))))).
+  assert (E : find_octets (render_ip x) = Some (render_ip x)).
+  { destruct (render_ip x) as [|c r] eqn:R.
+    - pose proof (render_ip_first x) as F. rewrite R in F. discriminate.
+    - cbn [find_octets]. rewrite <- R. now rewrite octets_prefix_render. }
+  cbn [find_octets].
+  rewrite !octets_prefix_nondigit by reflexivity.
+  rewrite E, (parse_render_ip x Hx). reflexivity.
+Qed.
+
+(** two dotted addresses separated by one blank *)
+Lemma dd_not_ws c : dd c = true -> is_ws c = false.
+Proof.
+  unfold dd, is_digit, is_ws. intros H. apply orb_prop in H as [H|H].
+  - apply andb_prop in H as [H1 H2]. apply N.leb_le in H1, H2.
+    cbv zeta. apply orb_false_iff. split; apply andb_false_iff; right; apply N.leb_gt; lia.
+  - apply Ascii.eqb_eq in H. subst c. reflexivity.
+Qed.
+
+Lemma split_ws_aux_token s : all_chars dd s = true ->
+  forall cur rest, split_ws_aux (s ++ String " " rest) cur =
+                   (if str_nonempty (cur ++ s) then [(cur ++ s)%string] else []) ++ split_ws_aux rest "".
+Proof.
+  induction s as [|c s IH]; intros H cur rest; cbn [append split_ws_aux].
+  - change (is_ws " ") with true. rewrite append_empty_r. destruct (str_nonempty cur); reflexivity.
+  - cbn [all_chars] in H. apply andb_prop in H as [H1 H2]. rewrite (dd_not_ws c H1).
+    rewrite (IH H2). now rewrite append_assoc_s.
+Qed.
+
+Lemma split_ws_aux_last s : all_chars dd s = true ->
+  forall cur, split_ws_aux s cur = if str_nonempty (cur ++ s) then [(cur ++ s)%string] else [].
+Proof.
+  induction s as [|c s IH]; intros H cur; cbn [split_ws_aux].
+  - now rewrite append_empty_r.
+  - cbn [all_chars] in H. apply andb_prop in H as [H1 H2]. rewrite (dd_not_ws c H1).
+    rewrite (IH H2). now rewrite append_assoc_s.
+Qed.
+
+Lemma render_ip_nonempty n : str_nonempty (render_ip n) = true.
+Proof. pose proof (render_ip_first n) as F. destruct (render_ip n); [discriminate|reflexivity]. Qed.
+
+Theorem wild_text_fixpoint pl x m : x < 2 ^ 32 -> m < 2 ^ 32 ->
+  spelling_of_text pl (render_ip x ++ " " ++ render_ip m) = Ok (SWild x m).
+Proof.
+  intros Hx Hm. unfold spelling_of_text.
+  assert (Hany : String.eqb (render_ip x ++ " " ++ render_ip m) "any" = false).
+  { apply String.eqb_neq. intro C. pose proof (render_ip_first x) as F.
+    apply (first_is_digit_app _ (" " ++ render_ip m)) in F. rewrite C in F. discriminate. }
+  rewrite Hany, (first_is_digit_app _ _ (render_ip_first x)). cbn [andb].
+  rewrite !contains_app.
+  rewrite (dd_no_char "/" _ eq_refl (render_ip_dd x)), (dd_no_char "/" _ eq_refl (render_ip_dd m)).
+  change (str_contains_char "/" " ") with false. cbn [orb].
+  change (str_contains_char " " " ") with true. cbn [orb]. rewrite orb_true_r.
+  unfold split_ws. change (render_ip x ++ " " ++ render_ip m)%string with (render_ip x ++ String " " (render_ip m))%string.
+  rewrite (split_ws_aux_token _ (render_ip_dd x)), (split_ws_aux_last _ (render_ip_dd m)).
+  cbn [append]. rewrite !render_ip_nonempty. cbn [app].
+  rewrite (parse_render_ip x Hx), (parse_render_ip m Hm). reflexivity.
+Qed.
